@@ -152,6 +152,80 @@ def rule_universe(ctx: Ctx, rep: Report) -> None:
     rep.floor(rule, 100)
 
 
+def _abstract_return(ctx: Ctx, fi: FuncInfo, subst: dict[str, object]):
+    """Value returned by a straight if/return function under a substitution of
+    its inputs (texts -> constants); UNKNOWN when a test or the value does not fold."""
+    def sub(e: ast.AST):
+        t = str(norm(e))
+        tree = ast.parse(t, mode="eval")
+
+        class T(ast.NodeTransformer):
+            def generic_visit(self, n):
+                if isinstance(n, ast.expr):
+                    k = ast.unparse(n)
+                    if k in subst:
+                        return ast.Constant(value=subst[k])
+                return super().generic_visit(n)
+        return ctx.folder.try_fold(T().visit(tree).body, fi.module)
+
+    def run(body):
+        for st in body:
+            if isinstance(st, ast.Expr) and isinstance(st.value, ast.Constant):
+                continue  # docstring
+            if isinstance(st, ast.Return):
+                return sub(st.value) if st.value is not None else None
+            if isinstance(st, ast.If):
+                v = sub(st.test)
+                if v is UNKNOWN:
+                    return UNKNOWN
+                r = run(st.body if v else st.orelse)
+                if r is not _FALL:
+                    return r
+                continue
+            return UNKNOWN
+        return _FALL
+    r = run(fi.node.body)
+    return UNKNOWN if r is _FALL else r
+
+
+_FALL = object()
+
+
+def rule_verify_state(ctx: Ctx, rep: Report) -> None:
+    """C15.verify_state: which subexpression is compiled in its VERIFY form.
+    The reference translation (BIP379, sipa's MakeScript) hands the verify
+    state down in exactly three places: the argument of `v:` is verified; the
+    argument of `s:` and the *last* argument of `and_v` inherit their parent's
+    state (their script ends where the parent's does); every other child is
+    not verified. Decided by folding `_verify_state` for every fragment of the
+    universe x child index 0..2 x parent state (a finite case split): a child
+    that should inherit and does not is compiled without its VERIFY, and the
+    script no longer means the expression."""
+    rule = "C15.verify_state"
+    fi = ctx.func(f"{MS}._verify_state")
+    ps = fi.params()
+    if len(ps) != 3:
+        rep.unknown(rule, "_verify_state", fi.where(), f"parameters {ps}: not (verify, node, index)")
+        return
+    vp, np_, ip = ps
+    U = _universe(ctx)
+    for frag in sorted(U):
+        for index in (0, 1, 2):
+            for verify in (False, True):
+                want = True if frag == "v:" else verify if (frag == "s:" or (frag == "and_v" and index == 1)) else False
+                got = _abstract_return(ctx, fi, {f"{np_}.fragment": frag, ip: index, vp: verify})
+                key = f"{frag}[{index}]<-{verify}"
+                if got is UNKNOWN:
+                    rep.unknown(rule, key, fi.where(), "does not fold")
+                    continue
+                rep.ob(rule, key, bool(got) == want, fi.where(),
+                       f"child {index} of {frag} under verify={verify}: {bool(got)}" if bool(got) == want else
+                       f"child {index} of `{frag}` under a verified parent={verify} is compiled with verify={bool(got)}; the translation table says {want}: "
+                       + ("its last op code keeps the plain form and no OP_VERIFY follows, so the V expression leaves a value on the stack" if want and not got else
+                          "its last op code is written in the VERIFY form where nothing asked for it"))
+    rep.floor(rule, 100)
+
+
 def rule_tables(ctx: Ctx, rep: Report) -> None:
     """C15.tables: templates, overheads, arities and leaf tables agree."""
     rule = "C15.tables"
@@ -226,11 +300,14 @@ def rule_limits(ctx: Ctx, rep: Report) -> None:
 
 RULES = [
     ("C15.universe", rule_universe),
+    ("C15.verify_state", rule_verify_state),
     ("C15.tables", rule_tables),
     ("C15.limits", rule_limits),
 ]
 
 CONTROLS = [
+    {"rule": "C15.verify_state", "name": "the last argument of and_v no longer inherits the verify state", "module": MS,
+     "edit": lambda ctx: M.sub_expr(ctx, f"{MS}._verify_state", lambda n: isinstance(n, ast.BoolOp) and "and_v" in norm(n), "node.fragment == 's:'")},
     {"rule": "C15.universe", "name": "j: loses its overhead entry", "module": MS,
      "edit": lambda ctx: M.sub_module_expr(ctx, MS, lambda n: isinstance(n, ast.Constant) and n.value == "j:" and isinstance(parent(n), ast.Dict) and "or_i" in norm(parent(n)) and "and_v" in norm(parent(n)), '"J:"')},
     {"rule": "C15.universe", "name": "hash256 loses its leaf-ops entry", "module": MS,
